@@ -5043,6 +5043,7 @@ func (a *Association) onRackAfterSACK( // nolint:gocognit,cyclop,gocyclo
 				a.tlrApplyAdditionalLossLocked(currTime)
 			}
 
+			a.rackLossResponseLocked()
 			a.awakeWriteLoop()
 		}
 	}
@@ -5157,8 +5158,27 @@ func (a *Association) onRackTimeoutLocked() { //nolint:cyclop
 			a.tlrApplyAdditionalLossLocked(time.Now())
 		}
 
+		a.rackLossResponseLocked()
 		a.awakeWriteLoop()
 	}
+}
+
+// rackLossResponseLocked applies the congestion response of RFC 4960 Sec 7.2.3 when the
+// time-based detector declares a chunk lost: a loss is a loss whichever detector saw it.
+// Like the gap-report path it acts once per recovery episode. The caller should hold the lock.
+func (a *Association) rackLossResponseLocked() {
+	if a.inFastRecovery {
+		return
+	}
+
+	a.inFastRecovery = true
+	a.fastRecoverExitPoint = a.myNextTSN - 1
+	a.ssthresh = max32(a.CWND()/2, 4*a.MTU())
+	a.setCWND(min(a.CWND(), a.ssthresh))
+	a.partialBytesAcked = 0
+
+	a.log.Tracef("[%s] updated cwnd=%d ssthresh=%d inflight=%d (RACK)",
+		a.name, a.CWND(), a.ssthresh, a.inflightQueue.getNumBytes())
 }
 
 func (a *Association) onPTOTimer() {
